@@ -1,4 +1,5 @@
 use crate::fw::*;
+pub mod c02;
 pub mod c03;
 pub mod c04;
 pub mod c05;
@@ -65,6 +66,7 @@ macro_rules! table {
 
 pub fn dispatch(ctx: &Ctx, replay: Option<&str>) -> i32 {
     table!(ctx, replay,
+        "C02" => c02,
         "C03" => c03,
         "C04" => c04,
         "C05" => c05,
